@@ -481,9 +481,8 @@ def rule_f(F):
 def rule_k(F):
     """every resize leaves a free slot: for each call of adjust_capacity, in all small states (count < capacity) in which the
     guards around the call hold, the installed capacity exceeds the item count (cao/capacity.py, exhaustive evaluation)."""
-    from cao import capacity
     res = []
-    for f, ln, status, msg in capacity.free_slot_after_resize(F, "collections::hash_map::CaoHashMap", False):
+    for f, ln, status, msg in tb.free_slot_after_resize(table(F), False):
         key = "C12/K/%s/free-slot-after-resize" % f.name
         mk = {"ok": ok, "bad": bad, "undecided": undecided}[status]
         res.append(mk("C12.K", key, f.loc(ln), msg))
